@@ -177,14 +177,14 @@ func (m *MonCausality) Finish(nw *Network) {}
 // ---------------------------------------------------------------------------
 
 type MonTxIntegrity struct {
-	processed map[*App]int
-	committed map[*App]map[string]int
-	ownSeen   int
+	processed  map[*App]int
+	committed  map[*App]map[string]int
+	ownSeen    int
 	ownPayload map[[2]int]map[string]int // (node idx, incarnation) -> tx -> count in own events
-	ownCount  map[[2]int]int
+	ownCount   map[[2]int]int
 	// StrictPool enables the per-step conservation equation
 	StrictPool bool
-	lost      map[int]bool // nodes whose pool was legitimately lost (restart)
+	lost       map[int]bool // nodes whose pool was legitimately lost (restart)
 }
 
 func NewMonTxIntegrity() *MonTxIntegrity {
@@ -351,13 +351,13 @@ func (m *MonTxIntegrity) Finish(nw *Network) {
 // ---------------------------------------------------------------------------
 
 type valState struct {
-	processed int
-	rounds    []int                  // rounds at which a new set becomes effective (ascending)
-	sets      map[int]map[string]bool // effective round -> set
-	cur       map[string]bool
-	epoch     int
+	processed      int
+	rounds         []int                   // rounds at which a new set becomes effective (ascending)
+	sets           map[int]map[string]bool // effective round -> set
+	cur            map[string]bool
+	epoch          int
 	witnessScanned map[int]int
-	base      int // first round this replay is valid for
+	base           int // first round this replay is valid for
 }
 
 type MonValidators struct {
@@ -551,7 +551,9 @@ type MonTimestamps struct {
 	Liars map[int]bool
 }
 
-func NewMonTimestamps() *MonTimestamps { return &MonTimestamps{processed: map[*App]int{}, Liars: map[int]bool{}} }
+func NewMonTimestamps() *MonTimestamps {
+	return &MonTimestamps{processed: map[*App]int{}, Liars: map[int]bool{}}
+}
 func (m *MonTimestamps) Name() string { return "timestamps" }
 
 // checkTimestamp is shared with dagcheck: ts must lie between the two middle
